@@ -33,16 +33,16 @@ type Violation struct {
 
 // Result is what a monitor reports for one case.
 type Result struct {
-	Case       int              `json:"case"`
-	Verdict    string           `json:"verdict"` // held | violated | inconclusive | ood
-	Violations []Violation      `json:"violations,omitempty"`
-	Note       string           `json:"note,omitempty"`
-	Feat       []string         `json:"feat,omitempty"` // distinct-case signatures contributed by this case
-	NonTrivial bool             `json:"nontrivial"`
-	Obs        map[string]int64 `json:"obs,omitempty"`  // counters (summed over the run)
+	Case       int                 `json:"case"`
+	Verdict    string              `json:"verdict"` // held | violated | inconclusive | ood
+	Violations []Violation         `json:"violations,omitempty"`
+	Note       string              `json:"note,omitempty"`
+	Feat       []string            `json:"feat,omitempty"` // distinct-case signatures contributed by this case
+	NonTrivial bool                `json:"nontrivial"`
+	Obs        map[string]int64    `json:"obs,omitempty"`  // counters (summed over the run)
 	Sets       map[string][]string `json:"sets,omitempty"` // observation sets (unioned over the run)
-	Sample     interface{}      `json:"sample,omitempty"`
-	WallMs     int64            `json:"wall_ms"`
+	Sample     interface{}         `json:"sample,omitempty"`
+	WallMs     int64               `json:"wall_ms"`
 }
 
 func (r *Result) Violate(key string, detail ...string) {
@@ -93,7 +93,7 @@ type Property struct {
 	Flavors     func(tier string) []string
 	Cases       func(tier string, seed uint64, flavor string) []Case
 	Run         func(c Case, env *Env) Result
-	Batch       int // cases per child (default 50)
+	Batch       int           // cases per child (default 50)
 	CaseBudget  time.Duration // watchdog budget per case (default 120s)
 	// RaceDeciding: race reports with wharf frames are violations (C15, C19).
 	RaceDeciding bool
@@ -109,7 +109,7 @@ type Property struct {
 
 var registry = map[string]*Property{}
 
-func Register(p *Property) { registry[p.ID] = p }
+func Register(p *Property)       { registry[p.ID] = p }
 func Lookup(id string) *Property { return registry[id] }
 func AllIDs() []string {
 	var ids []string
